@@ -312,8 +312,15 @@ pub fn build_full(
             for i in 0..n {
                 layer_paths.push(shared.join(LAYER_DIRS[i]).map_err(|e| e.to_string())?);
             }
-            let early = prepop.len() % 2 == 1;
-            let early_overlay = if early { Some(VfsPath::new(OverlayFS::new(&layer_paths))) } else { None };
+            // (mode 1: before every layer directory; 2: the upper directory is created afterwards,
+            // the lower ones exist; 3: the lower directories are created afterwards)
+            let mode = prepop.len() % 4;
+            for i in 0..n {
+                if (mode == 2 && i >= 1) || (mode == 3 && i == 0) {
+                    shared_plain.join(LAYER_DIRS[i]).map_err(|e| e.to_string())?.create_dir_all().map_err(|e| format!("layer dir: {}", e))?;
+                }
+            }
+            let early_overlay = if mode != 0 { Some(VfsPath::new(OverlayFS::new(&layer_paths))) } else { None };
             // clean per-layer views for inspection and pre-population
             let mut raw_roots = vec![];
             for i in 0..n {
